@@ -102,6 +102,11 @@ class C16(Prop):
         out.append(case('h = {"a":1,"b":2}; n = 0; foreach k, v in h { foreach k2, v2 in h { n++; } } return n;', "i4", "nested-foreach"))
         # hash literal: later duplicates, key types distinct
         out.append(case('h = {1: "i", "1": "s", 1.5: "f"}; return [h[1], h["1"], h[1.5]];', enc_value(["i", "s", "f"]), "hash-types"))
+        # random container programs judged against the model
+        import gen
+        for _ in range(30000 if tier == "thorough" else 300):
+            src = gen.container_program(rng)
+            out.append(Case("run", gen.struct_case(rng, src, ["prepare:" + rng.choice(["opt", "noopt"]), "exec:0"]), "random-containers", note=src))
         return out
 
 PROP = C16()
